@@ -5,6 +5,8 @@
 //! real code did as ND-JSON for TLC to validate (impl -> spec).  The harness
 //! contains no oracle of its own: it projects state and compares for equality
 //! with values TLC produced.
+#[cfg(feature = "capsule")]
+mod capsule;
 mod core;
 mod disk;
 mod func;
@@ -28,6 +30,8 @@ fn main() {
         "worker-run" => worker::run(rest),
         "disk-probe" => disk::probe(rest),
         "func-run" => func::run(rest),
+        #[cfg(feature = "capsule")]
+        "capsule-run" => capsule::run(rest),
         "func-query-one" => func::query_one(rest),
         "lock-probe" => lock::probe_cmd(rest),
         other => {
